@@ -5,7 +5,8 @@
 # whose guard is missing in the code) must violate InvNoPanic, and every initial state (operation,
 # shape, expected outcome) is replayed: a scripted server on a real uasc server channel answers with a
 # response of that shape, the real client call runs in a child process (panics in background goroutines
-# included).  The as-is model's prediction is recorded per row and compared with what the code did.
+# included).  The deviation sets the code had before its repair (commit aacaf02) are kept as the
+# non-vacuity demos; the as-is model is now the contract.
 import json
 import vf
 from _family_f import dedupe, need
@@ -21,22 +22,20 @@ def body(run):
     res = run.parallel(
         lambda: run.tlc("ClientOp", "ClientOp", "ClientOp_mc.cfg",
                         label="contract: no operation panics, every operation returns, bad responses are errors", timeout=3000),
-        lambda: run.tlc("ClientOp", "ClientOp", "ClientOp_asis_len.cfg", expect="violation", count=False,
+        lambda: run.tlc("ClientOp", "ClientOp", "ClientOp_dev_len.cfg", expect="violation", count=False,
                         label="deviation demo: indexing without a length check violates InvNoPanic"),
-        lambda: run.tlc("ClientOp", "ClientOp", "ClientOp_asis_typ.cfg", expect="violation", count=False,
+        lambda: run.tlc("ClientOp", "ClientOp", "ClientOp_dev_typ.cfg", expect="violation", count=False,
                         label="deviation demo: unchecked value type assertion violates InvNoPanic"),
         lambda: run.tlc("ClientOp", "ClientOp", "ClientOp_gen.cfg", mode="gen", count=False,
                         label="rows: one per (operation, response shape) with the contract outcome"),
-        lambda: run.tlc("ClientOp", "ClientOp", "ClientOp_asis_gen.cfg", mode="gen", count=False,
-                        label="rows: the as-is model's prediction per (operation, shape)"),
         lambda: exe.__setitem__(0, run.go_build("clientop")),
     )
     rows = dedupe(res[3].rows)
-    asis = {key(r): r["expect"] for r in dedupe(res[4].rows)}
-    if not rows or len(asis) != len(rows):
-        raise vf.Inconclusive("TLC emitted %d contract rows and %d as-is rows" % (len(rows), len(asis)))
+    if not rows:
+        raise vf.Inconclusive("TLC emitted no rows")
+    # since the repair (commit aacaf02) the as-is model is the contract: no deviating disjunct is enabled
     for r in rows:
-        r["asis"] = asis[key(r)]
+        r["asis"] = r["expect"]
     total = len(rows)
     if q:
         # quick: for operations that hand the response to the caller unindexed, keep the counts 0 and n only
